@@ -42,6 +42,18 @@ def variants(fi, prog=None):
             alts = [x.body, x.orelse] if isinstance(x, ast.IfExp) else [x]
             if any(isinstance(y, (ast.Name, ast.Attribute)) and "ref_ind" in astq.src(y) for y in alts) and "yrefidx" not in out:
                 out.append("yrefidx")
+    if prog is not None:
+        # a test that compares the SHAPES of two arrays somewhere below the routine: the world in which the reference records have the
+        # shape of the data (all channels listed, in another order) is analysed as well
+        base = getattr(fi, "fi", fi)
+        # (the routine and the private helpers of its module: a builder picked from a table is not on the call graph)
+        for q in sorted({base.qual} | set(prog.reachable([base.qual])) | {q_ for q_, g_ in prog.functions.items() if g_.mod == base.mod and g_.cls is None and g_.node.name.startswith("_")}):
+            g = prog.functions.get(q)
+            if g is not None and q.startswith("pyoma2.functions.ssi") and any(
+                    isinstance(c, ast.Compare) and len(c.ops) == 1 and isinstance(c.ops[0], (ast.Eq, ast.NotEq)) and ".shape" in astq.src(c.left) and ".shape" in astq.src(c.comparators[0])
+                    for c in ast.walk(g.node)):
+                out.append("yrefsame")
+                break
     return tuple(out)
 
 
@@ -59,6 +71,7 @@ def analyse(prog, fi, method, pY, pR, pbr, pm, variant="yref"):
         extra, consts = {pR: seqdom.K(None)}, {pR: None}
     else:
         it = hankdom.Interp(prog, roles={pY: ("rec", "all"), pR: ("rec", "ref")})
+        it.sh["same_shape"] = variant == "yrefsame"
         if has_ri:
             extra, consts = {"ref_ind": seqdom.K(None)}, {"ref_ind": None}
     # (the method label written into the body first: a dispatch table indexed with it becomes the call of one builder)
@@ -109,7 +122,8 @@ def hankel_rules(prog, run):
     # ------------------------------------------------------------ cov_mm and dat
     results = {}
     for method, variant in [(m_, v_) for m_ in ("cov_mm", "dat") for v_ in variants(fi, prog)]:
-        cfg = f"method={method}" + (",references by index" if variant == "refind" else ",reference list in place of the data" if variant == "yrefidx" else "")
+        cfg = f"method={method}" + (",references by index" if variant == "refind" else ",reference list in place of the data" if variant == "yrefidx" else
+                                    ",reference records of the shape of the data (every channel listed, in another order)" if variant == "yrefsame" else "")
         hs, it = analyse(prog, fi, method, pY, pR, pbr, pm, variant)
         for enode, etxt in it.errors:
             ob("R-lag", "structure: block rows keep the channel order", False, f"{cfg}: {etxt}", witness=etxt[:80], node=enode, config=cfg)
